@@ -135,6 +135,14 @@ func init() {
 				so.emit(fmt.Sprintf("TPERFT\t%s\t%d", fen, d), perftViaCommand(fen, "tperft", d, "eval", "tperft 1"))
 			}
 		}
+		// castling rights around captures on the rook corners (both sides hold all rights, files a and h open): three plies reach
+		// "capture on the corner, then the castling that must be gone"
+		for i, f := range cornerTemplates() {
+			if strings.HasSuffix(f, " 0 13") || strings.Contains(f, " KQkq ") && (n >= 1000 || i%4 == 1) {
+				so.emit(fmt.Sprintf("PERFT\t%s\t%d", f, 3), perftViaCommand(f, "perft", 3))
+				so.emit(fmt.Sprintf("TPERFT\t%s\t%d", f, 3), perftViaCommand(f, "tperft", 3))
+			}
+		}
 		fmt.Fprintf(os.Stderr, "STATS perft total=%d\n", so.n)
 	}
 }
